@@ -982,6 +982,7 @@ PASS_THROUGH = (
 class Facts:
     def __init__(self, crates, config="main", repo=None):
         self.config = config
+        self.repo = repo or extract.REPO
         d, th, fresh = extract.facts_dir(config) if repo is None else extract.facts_dir(config, repo)
         self.dir = d
         self.tree = th
